@@ -1,5 +1,6 @@
 import PlushModel
 import PlushProofs.Lib.ParserWF
+import PlushProofs.Lib.EvalCrashSites
 /-!
   C04 — evaluation is total: the operator, index-read and index-write matrices of the model never reach
   a crash site, for EVERY combination of value kinds (case analysis over all constructors of `Val`,
@@ -103,5 +104,19 @@ theorem C04_parser_never_yields_missing_child (src : Bytes) (prog : Program) (er
 example : Stmt.bad (.let_ zeroTok none none) = true ∧
     Stmt.bad (.let_ zeroTok (some { tok := zeroTok, segs := [[120]] }) none) = false := by
   constructor <;> simp [Stmt.bad, OExpr.bad, Ident.bad]
+
+/-! ### Evaluator-wide crash sites (proof in `PlushProofs/Lib/EvalCrashSites.lean`) -/
+
+/-- THE WHOLE EVALUATOR, not just the dispatch matrices: in the model a crash site (a Go panic) can be reached ONLY
+    at one of three named places, each the dereference of a missing AST child — never in operator dispatch,
+    indexing, calls, argument binding, the three loop forms, block helpers, contentFor/contentOf, partials, the
+    output sink, nor (Theorem B) through the parser. All 27 functions of the evaluator's mutual recursion, every
+    program, every state. `C04_parser_never_yields_missing_child` excludes the three sites for error-free programs. -/
+theorem C04_evaluator_crash_sites (fuel : Nat) : AllCO fuel := allCO fuel
+
+/-- instance: a whole render -/
+theorem C04_render_crash_sites (fuel : Nat) (src : Bytes) (ctx : Nat) (s : ES) (site : String)
+    (h : (renderIn fuel src ctx s).1 = .fatal (.crash site)) : site ∈ nilChildSites :=
+  (allCO fuel).renderIn src ctx s site h
 
 end Plush
